@@ -38,8 +38,7 @@ LIB: dict[str, dict] = {
     "TFailKI": _op("failki", [], beh=["fail", "KeyboardInterrupt"]),
     "TProbe": dict(kind=["probe"], params=[], inT="TData", outT="TData", declared=[], beh=["term", "probe"]),
     "TProbeP": dict(kind=["probe"], params=[("a", None)], inT="TData", outT="TData", declared=[], beh=["term", "probep"]),
-    # static description only (C02/C07): the echo behaviour is not part of the execution model
-    "TProbeEcho": dict(kind=["probe"], params=[("val", None)], inT="TData", outT="TData", declared=[], beh=["term", "echo"]),
+    "TProbeEcho": dict(kind=["probe"], params=[("val", None)], inT="TData", outT="TData", declared=[], beh=["echo"]),
     "TFailProbe": dict(kind=["probe"], params=[], inT="TData", outT="TData", declared=[], beh=["fail", "VerifProcError"]),
     "TSink": dict(kind=["dataSink"], params=[("path", None)], inT="TData", outT="TData", declared=[], beh=["term", "sink"]),
     "TPayloadSink": dict(kind=["payloadSink"], params=[("path", None)], inT="TData", outT="TData", declared=[], beh=["term", "psink"]),
@@ -130,7 +129,7 @@ def gen_pipeline(rnd, max_len=6, p_misfit=0.15, sinks_path: str | None = None, a
                 choices += ["missing"]
             ch = rnd.choice(choices)
             if ch == "config":
-                cfg[name] = (sinks_path if name == "path" and sinks_path else rnd.choice(["c1", "c2", 3, ["y"], None]))
+                cfg[name] = (sinks_path if name == "path" and sinks_path else rnd.choice(["c1", "c2", 3, ["y"], None, 0, False, "", 0.0, []]))      # falsy values are values too
                 if name == "path" and not sinks_path:
                     cfg[name] = "/dev/null"
             elif name == "path" and ch in ("missing",):
@@ -151,7 +150,7 @@ def gen_pipeline(rnd, max_len=6, p_misfit=0.15, sinks_path: str | None = None, a
         if (eff == "NoDataType") == fit or not fit:
             cands += ["TSource", "TSourceDef", "TCollSource", "TPayloadSource"] if (eff == "NoDataType") == fit else []
         if (eff == "TData") == fit:
-            cands += ["TOp0", "TOp1", "TOp1Def", "TOp2", "TOpW", "TOpW2", "TProbe", "TProbeP", "TSink", "TPayloadSink", "TOpToOther"]
+            cands += ["TOp0", "TOp1", "TOp1Def", "TOp2", "TOpW", "TOpW2", "TProbe", "TProbeP", "TProbeEcho", "TSink", "TPayloadSink", "TOpToOther"]
             if fit and rnd.random() < 0.25:
                 cands += ["TOpUndeclared", "TFail", "TFailProbe"]
         if (eff == "TColl") == fit:
